@@ -4,6 +4,8 @@ package vb
 
 import (
 	"github.com/tink-crypto/tink-go/v2/internal/internalapi"
+	"github.com/tink-crypto/tink-go/v2/internal/internalregistry"
+	"github.com/tink-crypto/tink-go/v2/monitoring"
 	"github.com/tink-crypto/tink-go/v2/internal/protoserialization"
 	"github.com/tink-crypto/tink-go/v2/key"
 	tinkpb "github.com/tink-crypto/tink-go/v2/proto/tink_go_proto"
@@ -38,3 +40,11 @@ func SerializeParameters(p key.Parameters) (*tinkpb.KeyTemplate, error) {
 func ParseParameters(t *tinkpb.KeyTemplate) (key.Parameters, error) {
 	return protoserialization.ParseParameters(t)
 }
+
+// RegisterMonitoringClient installs the process-global monitoring client (fails if one is registered).
+func RegisterMonitoringClient(c monitoring.Client) error {
+	return internalregistry.RegisterMonitoringClient(c)
+}
+
+// ClearMonitoringClient removes the global monitoring client.
+func ClearMonitoringClient() { internalregistry.ClearMonitoringClient() }
